@@ -107,7 +107,7 @@ func H18() {
 var h18revText = []string{
 	`module lib { namespace "urn:lib"; prefix lib; revision 2019-01-01; grouping gp { leaf old { type string; } } container c { leaf c19 { type string; } } }`,
 	`module lib { namespace "urn:lib"; prefix lib; revision 2020-06-15; grouping gp { leaf new { type int8; } } container c { leaf c20 { type string; } } }`,
-	`module user { namespace "urn:user"; prefix user; import lib { prefix l; } container uc { uses l:gp; } augment /l:c { leaf ua { type string; } } }`,
+	`module user { namespace "urn:user"; prefix user; import lib { prefix l; } container uc { uses l:gp; } grouping wrap { uses l:gp; leaf own { type string; } } container uw { uses wrap; } augment /l:c { leaf ua { type string; } } }`,
 	`module pin { namespace "urn:pin"; prefix pin; import lib { prefix l; revision-date 2019-01-01; } container pc { uses l:gp; } }`,
 }
 
